@@ -248,9 +248,9 @@ prop('C12',
                  'params': {'quick': {'MaxC': 2, 'MaxK': 3}, 'thorough': {'MaxC': 3, 'MaxK': 4}}, 'covers': ['source-overlaps-spare-capacity']},
                 {'name': 'C12_Chain', 'types': {'quick': ['int8'], 'thorough': ['int8', 'float64']},
                  'splits': [{'s0.op': o, 'C': c} for o in range(5) for c in (1, 2)],
-                 'params': {'quick': {'MaxC': 2, 'MaxK': 1, 'MaxKB': 1, 'Views': 0, 'Depth': 2}, 'thorough': {'MaxC': 2, 'MaxK': 1, 'MaxKB': 1, 'Views': 1, 'Depth': 2}}}],
+                 'params': {'quick': {'MaxC': 2, 'MaxK': 1, 'MaxKB': 1, 'Views': 0, 'Depth': 2}, 'thorough': {'MaxC': 2, 'MaxK': 2, 'MaxKB': 1, 'Views': 0, 'Depth': 2}}}],
      bounds={'quick': 'state: storage A with 1..2 channels and 0..2 frames seen through its full view and 1 arbitrary window (overlap allowed), storage B with 0..1 frames and one window, each window with 0..C-1 extra samples; one operation chosen from {Slice (start,end within -1..capacity+1), AppendSample, Append(vi<-vj) for every ordered pair incl. i=j and cross-storage, SetSample (index -1..len), Write (0..len+1 samples)} applied to the real buffers and to a reference model of plain Go slices; every view compared (len, cap, one symbolic position of its full capacity); Append between two arbitrary windows of one storage with 0..3 frames (every overlap, self-append); chained variant: depth 2 over a smaller state',
-             'thorough': 'A: 1..3 channels, 0..3 frames, 1 window; aliased append between two windows with 0..4 frames; chain depth 2 over A with 0..1 frames and 1 window'},
+             'thorough': 'A: 1..3 channels, 0..3 frames, 1 window; aliased append between two windows with 0..4 frames; chain depth 2 over A with 0..2 frames (full view plus the views created on the way)'},
      level_note='The reference model uses Go append/copy/slice expressions, which are primitives of the encoder (and of the native replay), so growth capacities agree by construction. Append is compared only for frame-aligned operands (what capacity trimming does to an unaligned total is specified nowhere); sources overlapping the destination spare capacity are included (Go append has copy semantics).',
      outside=['more than 4 live views / larger shapes', 'Append with unaligned lengths (unspecified)', 'more than one growth per step'])
 
